@@ -153,6 +153,10 @@ func methodBodyBlock(itf *idl.InterfaceType, method idl.Method,
 		code = jen.Id("ret, callErr := p.impl").Dot(methodName).Call(params...)
 	}
 	writing = append(writing, code)
+	if ret.Signature() != "v" {
+		// a returned value without content (an empty tuple) is not written
+		writing = append(writing, jen.Id("_ = ret // discard unused variable error"))
+	}
 	code = jen.Id(`
 	// do not respond to post messages.
 	if msg.Header.Type == net.Post {
